@@ -449,6 +449,7 @@ fn mode_c13(cx: &mut Ctx, only_unit: Option<usize>, only_case: Option<(Vec<Fact>
     let nprogs = (0..cx.units.len()).filter(|ui| !cx.makes(*ui).is_empty()).count().max(1);
     let mut per_shard: usize = if cx.thorough { 6_000_000 } else { 280_000 };
     if cx.family == "par" { per_shard /= 20; }
+    if cx.family == "dsrerun" { per_shard /= 200; } // one program per shard, ~10 reader rules, 27-54 candidate facts to add
     let budget = (per_shard / nprogs).clamp(if cx.family == "par" { 150 } else { 300 }, 100_000);
     for ui in 0..cx.units.len() {
         let makes = cx.makes(ui);
